@@ -2081,18 +2081,18 @@ theorem C20_gen_round4_constants :
       ("service_install_duration", "'service_install_duration' in defaults_config"),
       ("service_restart_duration", "'service_restart_duration' in defaults_config")] ∧
     Gen.Config.defaultsLanding.map (fun e => e.2.2) = [
-      "folder.restore_duration = defaults_config['folder_restore_duration']",
-      "new_node.file_system._default_folder_restore_duration = defaults_config['folder_restore_duration']",
-      "folder.scan_duration = defaults_config['folder_scan_duration']",
-      "new_node.file_system._default_folder_scan_duration = defaults_config['folder_scan_duration']",
-      "new_node.config.node_scan_duration = defaults_config['node_scan_duration']",
-      "new_node.config.shut_down_duration = defaults_config['node_shut_down_duration']",
+      "folder.restore_duration = int(defaults_config['folder_restore_duration'])",
+      "new_node.file_system._default_folder_restore_duration = int(defaults_config['folder_restore_duration'])",
+      "folder.scan_duration = int(defaults_config['folder_scan_duration'])",
+      "new_node.file_system._default_folder_scan_duration = int(defaults_config['folder_scan_duration'])",
+      "new_node.config.node_scan_duration = int(defaults_config['node_scan_duration'])",
+      "new_node.config.shut_down_duration = int(defaults_config['node_shut_down_duration'])",
       "defaults_config.get('node_shut_down_duration', 3)",
-      "new_node.config.start_up_duration = defaults_config['node_start_up_duration']",
+      "new_node.config.start_up_duration = int(defaults_config['node_start_up_duration'])",
       "defaults_config.get('node_start_up_duration', 3)",
-      "new_service.config.fixing_duration = defaults_config['service_fix_duration']",
-      "new_service.install_duration = defaults_config['service_install_duration']",
-      "new_service.restart_duration = defaults_config['service_restart_duration']"] ∧
+      "new_service.config.fixing_duration = int(defaults_config['service_fix_duration'])",
+      "new_service.install_duration = int(defaults_config['service_install_duration'])",
+      "new_service.restart_duration = int(defaults_config['service_restart_duration'])"] ∧
     Gen.Config.aclAddressKeys.map (·.1) = ["Router", "Firewall", "Firewall", "Firewall", "Firewall", "Firewall", "Firewall", "WirelessRouter"] ∧
     Gen.Config.aclAddressKeys.all (fun e => e.2 = ("r_cfg.get('src_ip', r_cfg.get('src_ip_address'))",
       "r_cfg.get('dst_ip', r_cfg.get('dst_ip_address'))", "r_cfg.get('src_wildcard_mask')", "r_cfg.get('dst_wildcard_mask')")) = true := by
